@@ -47,6 +47,7 @@ def check_scalar_subclass(rep, base, m, c, psub, q, wit):
     parameter value like any other: the task equals the one built from the equal plain scalars, and everything
     that works for that one (hash, serializer, dependency search, pickled copies) works for it."""
     import dataclasses
+    import json
     import pickle
     from labtech.exceptions import TaskError
     from labtech.serialization import Serializer
@@ -62,6 +63,11 @@ def check_scalar_subclass(rep, base, m, c, psub, q, wit):
                       f'{type(ex).__name__}: {ex} instead of TaskError', wit)
         return
     rep.count('scalar_subclass_accepted')
+    if '\\u0000' in json.dumps(psub):
+        rep.count('dict_keys_of_a_str_subtype_accepted')
+    if t.cache_key != base.cache_key:
+        rep.violation('equal-parameters-unequal-tasks', f'{t!r} and {base!r} are built from equal parameters but have '
+                      f'different cache keys', wit)
     if t != base or hash(t) != hash(base):
         rep.violation('equal-parameters-unequal-tasks', f'{t!r} != {base!r} (or hashes differ) although the '
                       f'parameters are equal', wit)
